@@ -258,6 +258,34 @@ def _rollback_relations(rep):
     chgt = ch.mktype(attrs={a.id: 10, b.id: 20}, effects=[e_other])
     shipt = ch.mktype(attrs={a.id: 100, b.id: 10}, effects=[e_dom, e_self])
     stt = ch.mktype(attrs={a.id: 5, b.id: 30}, effects=[e_ship])
+    # leaving a fleet the fit is not in: KeyError, and the boost it gets in its own fleet stays
+    from eos import Fleet
+    from eos.const.eve import AttrId, EffectId
+    from eos.eve_obj.buff_template import WarfareBuffTemplate
+    for aid in (AttrId.warfare_buff_1_id, AttrId.warfare_buff_1_value):
+        ch.mkattr(attr_id=aid)
+    ch.buffs[7] = {WarfareBuffTemplate(buff_id=7, affectee_filter=ModAffecteeFilter.item, affectee_attr_id=a.id,
+                                       operator=ModOperator.post_percent, aggregate_mode=ModAggregateMode.maximum)}
+    burst = ch.mkeffect(effect_id=EffectId.module_bonus_warfare_link_armor, category_id=EffectCategoryId.active)
+    burst_t = ch.mktype(attrs={AttrId.warfare_buff_1_id: 7, AttrId.warfare_buff_1_value: 20}, effects=[burst], default_effect=burst)
+    plain_ship = ch.mktype(attrs={a.id: 100, b.id: 10})
+    ss = SolarSystem(source=mem.source(ch))
+    f, g = Fit(solar_system=ss), Fit(solar_system=ss)
+    f.ship, g.ship = Ship(plain_ship.id), Ship(plain_ship.id)
+    fl_a, fl_b = Fleet(), Fleet()
+    fl_a.fits.add(f)
+    fl_a.fits.add(g)
+    f.modules.high.append(ModuleHigh(burst_t.id, state=State.active))
+    before = (f.ship.attrs[a.id], g.ship.attrs[a.id], g.fleet is fl_a, len(fl_a.fits))
+    try:
+        fl_b.fits.remove(g)
+        rep.violate('removing a fit from a fleet it is not in did not raise', {'designed': 'fleet'})
+    except KeyError:
+        after = (f.ship.attrs[a.id], g.ship.attrs[a.id], g.fleet is fl_a, len(fl_a.fits))
+        rep.case(kind='oracle-rollback-relations', sig=('rollback-relations', 'fleet'))
+        if before != after:
+            rep.violate('rejected removal from a foreign fleet raised KeyError and changed the world: %r -> %r' % (before, after),
+                        {'designed': 'fleet'})
     for case in ('charge', 'ship', 'stance'):
         ss = SolarSystem(source=mem.source(ch))
         f, g = Fit(solar_system=ss), Fit(solar_system=ss)
